@@ -100,6 +100,10 @@ def rule_tracker(ctx):
             inf = refined_infeasible(ctx, body, assume_cur=True)
             blocks = ev_invoke.blocks_with(body, lambda k: h.bb in ctx.base_call_bbs(k[0]))
             exits = ctx.ok_exit_blocks(body)
+            # an end event whose signature carries the error (Result<_, &dyn Error>) is owed on *every* normal exit
+            hcl = F.closures_of(F.callee_body(h))
+            if hcl and any('dyn std::error::Error' in hcl[0].local_ty(i) and 'Result<' in hcl[0].local_ty(i) for i in range(1, hcl[0].argc + 1)):
+                exits = body.returns()
             bad = None
             seen = body.reach(body.xsucc(h.bb), avoid=ctx.both(inf, lambda x: x in blocks))
             for e in exits:
